@@ -223,7 +223,9 @@ class SecondsTimedeltaProvider(MorphingProvider):
             if type(data) not in ok_types:
                 raise TypeLoadError(Union[int, float, Decimal], data)
             try:
-                return timedelta(seconds=int(data), microseconds=int(data % 1 * 10 ** 6))
+                # ``//`` and ``%`` of each type agree with each other (``int()`` truncates, but ``%`` floors: -1.5 became -0.5),
+                # the fraction is rounded because 2.3 % 1 * 10 ** 6 == 299999.99999999994
+                return timedelta(seconds=int(data // 1), microseconds=round(data % 1 * 10 ** 6))
             except (ValueError, ArithmeticError):
                 raise ValueLoadError("Value is out of the range of supported values", data)
 
